@@ -29,6 +29,8 @@ func (s *Sim) randMsgs(g *rand.Rand, b int, private bool) []Msg {
 	if private {
 		if isDealer {
 			ms = append(ms, Msg{"share", "ok", "P1", -1}, Msg{"share", "ok", "P1", -1}, Msg{"share", "ok", "P2", -1}, Msg{"share", "bad", "none", -1})
+		} else {
+			ms = append(ms, Msg{"share", "ok", "P1", -1})
 		}
 		return ms
 	}
@@ -48,6 +50,20 @@ func (s *Sim) randMsgs(g *rand.Rand, b int, private bool) []Msg {
 	for _, d := range s.dealers {
 		if d != b {
 			ms = append(ms, Msg{"complaint", "ok", "none", d})
+		}
+	}
+	if !isDealer { // unsolicited dealer-type messages and a complaint against a non-dealer
+		other := (b + 1) % s.sc.N
+		ms = append(ms, Msg{"vec", "ok", "P1", -1}, Msg{"answer", "ok", "P1", other}, Msg{"answer", "bad", "none", -1})
+		for j := 0; j < s.sc.N; j++ {
+			nd := true
+			for _, d := range s.dealers {
+				nd = nd && d != j
+			}
+			if nd && j != b {
+				ms = append(ms, Msg{"complaint", "ok", "none", j})
+				break
+			}
 		}
 	}
 	ms = append(ms, Msg{"complaint", "bad", "none", -1}, Msg{"junk", "empty", "none", -1})
@@ -92,7 +108,10 @@ func (s *Sim) randScript(g *rand.Rand, cfg RandomConfig) map[string]ByzScript {
 		bs := ByzScript{Pv: map[string][]Msg{}}
 		cand := s.randMsgs(g, b, false)
 		pc := s.randMsgs(g, b, true)
-		isDealer := len(pc) > 0
+		isDealer := false
+		for _, d := range s.dealers {
+			isDealer = isDealer || d == b
+		}
 		if wild {
 			k := g.Intn(cfg.MaxBc + 1)
 			for i := 0; i < k && len(cand) > 0; i++ {
@@ -197,6 +216,14 @@ func (s *Sim) randScript(g *rand.Rand, cfg RandomConfig) map[string]ByzScript {
 		}
 		if dev(3) {
 			bs.Bc = append(bs.Bc, Msg{"complaint", "bad", "none", -1})
+		}
+		if !isDealer && dev(25) && len(cand) > 0 {
+			bs.Bc = append(bs.Bc, cand[g.Intn(len(cand))])
+			for _, p := range s.honest {
+				if dev(30) {
+					bs.Pv[strconv.Itoa(p)] = append(bs.Pv[strconv.Itoa(p)], Msg{"share", "ok", "P1", -1})
+				}
+			}
 		}
 		if dev(2) {
 			bs.Bc = append(bs.Bc, Msg{"junk", []string{"empty", "badtag"}[g.Intn(2)], "none", -1})
